@@ -32,7 +32,7 @@ def programs(cls_name: str, meth: str) -> Optional[dict]:
         if cls_name not in cs.defs:
             _PROGS[key] = None
             return None
-        ch = x.chain(cs, cls_name, meth, strict=(meth == "receive"))
+        ch = x.chain(cs, cls_name, meth, strict=False)
         text = " ".join(p for _, prog in ch for p in prog)
         calls = []
         for m in re.finditer(r'\.(eff|retEff) "((?:[^"\\]|\\.)*)"|\.(doIf|retEffIf) "(?:[^"\\]|\\.)*" "((?:[^"\\]|\\.)*)"', text):
@@ -44,7 +44,7 @@ def programs(cls_name: str, meth: str) -> Optional[dict]:
 
 
 class Call:
-    __slots__ = ("obj", "kind", "cls", "can", "payload", "effects", "results", "ret", "before", "sent0", "state", "node_state")
+    __slots__ = ("obj", "kind", "cls", "can", "payload", "effects", "results", "ret", "before", "sent0", "state", "node_state", "compare")
 
 
 class World:
@@ -85,11 +85,12 @@ class World:
         cls = type(obj).__name__
         for meth in ("receive", "send"):
             info = programs(cls, meth)
-            if info is None or info["opaque"]:
+            if info is None:
                 continue
-            self._wrap(side, obj, cls, meth, info)
+            # a chain with an untranslated statement is not COMPARED with the model, but the oracle still watches the class
+            self._wrap(side, obj, cls, meth, info, compare=not info["opaque"] and (meth, cls) in NAMES)
 
-    def _wrap(self, side: str, obj, cls: str, meth: str, info: dict):
+    def _wrap(self, side: str, obj, cls: str, meth: str, info: dict, compare: bool = True):
         world = self
         real = getattr(type(obj), meth)
         for nm in info["calls"]:
@@ -123,13 +124,15 @@ class World:
             c.sent0 = world.frames_out[side]
             c.state = _o.operating_state.name
             c.node_state = world.nodes[side].operating_state.name
-            env = world._env(c, k)
+            c.compare = compare
+            env = world._env(c, k) if compare else None
             world.stack.append(c)
             try:
                 c.ret = real(_o, *a, **k)
             finally:
                 world.stack.pop()
-            world.records.append(c)
+            if compare:
+                world.records.append(c)
             c.payload = env      # keep only the evaluated environment
             if not c.can:
                 bad = []
@@ -194,7 +197,7 @@ def load_names(run_driver, exe: str):
     qs = [(k, c) for c in classes for k in ("recv", "send")]
     out = run_driver(exe, [f"relay names {k} {c}" for k, c in qs])
     for (k, c), line in zip(qs, out):
-        if line == "no-such-class":
+        if line.count("||") != 2:   # class not in the table, or a driver built before the table could be generated
             continue
         a, b, t = line.split("||")
         NAMES[("receive" if k == "recv" else "send", c)] = {"conds": [x for x in a.split(";;") if x], "res": [x for x in b.split(";;") if x],
